@@ -10,7 +10,7 @@ from trie.exceptions import MissingTraversalNode, MissingTrieNode, TraversedPart
 from ..faults import LossyDB
 from ..hexcommon import keyspecs, literal_keys, resolve_key, resolve_val, valspecs
 from ..ref.mpt import RefTrie
-from ..util import Info, Raised, cm_enter, cm_exit, expect, expect_eq, impl, nibbles_of
+from ..util import Info, Raised, as_bytes, as_nibbles, cm_enter, cm_exit, expect, expect_eq, impl, nibbles_of
 
 ID = "C07"
 LEVEL = "fault_enumeration"
@@ -303,7 +303,7 @@ def run_case(case):
                 result = r
                 break
             exc = r.exc
-            h = bytes(exc.missing_node_hash)
+            h = as_bytes("report-names-a-hash", exc.missing_node_hash, "missing_node_hash of the report")
             # ---- the report tells the truth ------------------------------------------
             expect("reported-node-really-absent", h in lossy.hidden,
                    lambda: f"{kind}: reported {h.hex()} which is not absent from the database")
@@ -312,18 +312,18 @@ def run_case(case):
             if kind in ("get", "exists", "set", "delete", "sete"):
                 expect("report-type", isinstance(exc, MissingTrieNode),
                        f"{kind} raised {type(exc).__name__} instead of MissingTrieNode")
-                expect_eq("report-root-hash", bytes(exc.root_hash), bytes(t.root_hash), "root_hash of the report")
-                expect_eq("report-requested-key", bytes(exc.requested_key), key, "requested_key of the report")
+                expect_eq("report-root-hash", as_bytes("report-root-hash", exc.root_hash, "root_hash of the report"), bytes(t.root_hash), "root_hash of the report")
+                expect_eq("report-requested-key", as_bytes("report-requested-key", exc.requested_key, "requested_key of the report"), key, "requested_key of the report")
             else:
                 expect("report-type", isinstance(exc, MissingTraversalNode),
                        f"{kind} raised {type(exc).__name__} instead of MissingTraversalNode")
             if kind in ("get", "exists"):
-                pfx = None if exc.prefix is None else tuple(int(x) for x in exc.prefix)
+                pfx = None if exc.prefix is None else as_nibbles("report-on-path-with-exact-prefix", exc.prefix, "prefix of the report")
                 expect("report-on-path-with-exact-prefix", (pfx, h) in on_path,
                        lambda: f"{kind}({key!r}) reported node {h.hex()} at prefix {pfx}; hashed "
                                f"nodes on the path: {[(p, x.hex()[:8]) for p, x in on_path]}")
             elif kind in ("traverse", "traverse_from", "root_node"):
-                rel = tuple(int(x) for x in exc.nibbles_traversed)
+                rel = as_nibbles("report-on-path-with-exact-prefix", exc.nibbles_traversed, "nibbles_traversed of the report")
                 absolute = tuple(start_prefix) + rel
                 expect("report-on-path-with-exact-prefix", (absolute, h) in on_path
                        and (kind != "traverse_from" or len(absolute) > len(start_prefix)),
@@ -341,7 +341,7 @@ def run_case(case):
                                f"the key's path {path_prefixes}"
                                + ("" if kind == "set" or key not in model else " nor directly below it"))
                 if exc.prefix is not None:
-                    pfx = tuple(int(x) for x in exc.prefix)
+                    pfx = as_nibbles("mutation-report-prefix", exc.prefix, "prefix of the report")
                     expect("mutation-report-prefix", pfx in where[h],
                            f"{kind}: prefix {pfx} does not lead to the reported node")
                 if min(len(p) for p in where[h]) >= 2:
